@@ -85,7 +85,12 @@ pub fn bundles() -> Vec<(String, SpendBundle)> {
         v.push(("last-generic".into(), SpendBundle::new(vec![spend(1, 1000, list(&[create.clone(), my_amount.clone()]))], Signature::default())));
         v.push(("last-aggsig".into(), SpendBundle::new(vec![spend(1, 1000, list(&[my_amount.clone(), aggsig]))], Signature::default())));
         v.push(("last-message".into(), SpendBundle::new(vec![spend(1, 1000, list(&[my_amount.clone(), send, recv]))], Signature::default())));
-        v.push(("last-create-coin".into(), SpendBundle::new(vec![spend(1, 1000, list(&[my_amount, create]))], Signature::default())));
+        v.push(("last-create-coin".into(), SpendBundle::new(vec![spend(1, 1000, list(&[my_amount.clone(), create.clone()]))], Signature::default())));
+        // interning is not symmetric in puzzle and solution here: the solution holds the sub-tree (1), which is also the puzzle
+        let remark = cond(&[vec![1]]);
+        v.push(("interned-asymmetric".into(), SpendBundle::new(vec![spend(1, 1000, list(&[remark.clone(), my_amount.clone(), create.clone(), remark.clone()]))], Signature::default())));
+        // one spend creates two coins for the same puzzle hash (different amounts): both are listed
+        v.push(("two-outputs-one-puzzle-hash".into(), SpendBundle::new(vec![spend(1, 1000, list(&[cond(&[vec![51], vec![9u8; 32], vec![100]]), cond(&[vec![51], vec![9u8; 32], vec![101]]), cond(&[vec![51], vec![8u8; 32], vec![100]])]))], Signature::default())));
         // totals above 2^64 (two coins of u64::MAX): conservation is decided on the full sums
         let max = vec![0u8, 0xff, 0xff, 0xff, 0xff, 0xff, 0xff, 0xff, 0xff];
         let max_m1 = vec![0u8, 0xff, 0xff, 0xff, 0xff, 0xff, 0xff, 0xff, 0xfe];
@@ -129,8 +134,9 @@ pub fn bundles() -> Vec<(String, SpendBundle)> {
 }
 
 fn summary(c: &OwnedSpendBundleConditions) -> String {
+    // (a spend's created coins come out of a hash set: listed in sorted order)
     let mut per: Vec<String> = c.spends.iter().map(|s| format!("[{} amt={} cc={} created={:?}]", hex::encode(s.coin_id), s.coin_amount, s.condition_cost,
-        s.create_coin.iter().map(|(p, a, h)| format!("{}:{a}:{}", hex::encode(p), h.is_some())).collect::<Vec<_>>())).collect();
+        { let mut v = s.create_coin.iter().map(|(p, a, h)| format!("{}:{a}:{}", hex::encode(p), h.is_some())).collect::<Vec<_>>(); v.sort(); v })).collect();
     per.sort();
     format!("cc={} rem={} add={} fee={} {}", c.condition_cost, c.removal_amount, c.addition_amount, c.reserve_fee, per.join(""))
 }
@@ -172,7 +178,7 @@ pub fn check_bundle(name: &str, b: &SpendBundle, interned: bool, strict: bool) -
     // verdicts the rules prescribe for the mempool path
     for (bn, want) in [("spends-6000", true), ("spends-6001", false), ("amount-0x8000000000000000", true), ("amount-0xffffffffffffffff", true),
                        ("two-spends", true), ("wrong-my-amount", false), ("forged-second-reveal", false), ("forged-first-reveal", false), ("forged-third-reveal", false),
-                       ("above-u64-minting", false), ("above-u64-exact", true), ("above-u64-fee-covered", true), ("above-u64-fee-short", false), ("minting", false), ("empty", true),
+                       ("above-u64-minting", false), ("above-u64-exact", true), ("above-u64-fee-covered", true), ("above-u64-fee-short", false), ("interned-asymmetric", true), ("two-outputs-one-puzzle-hash", true), ("minting", false), ("empty", true),
                        ("last-generic", true), ("last-aggsig", true), ("last-message", true), ("last-create-coin", true)] {
         if name == bn && strict {
             n += 1;
@@ -183,6 +189,17 @@ pub fn check_bundle(name: &str, b: &SpendBundle, interned: bool, strict: bool) -
         // an operator the lenient dialect tolerates and the strict one refuses: the verdict follows the flags given
         n += 1;
         if mem.is_ok() == strict { fails.push((format!("{name}/{tag}/dialect-verdict"), format!("run_spendbundle accepted = {} with {} flags", mem.is_ok(), if strict { "mempool" } else { "block-validation" }))); }
+    }
+    // C02: the owned (reported) form lists every created coin: as many as the parsed conditions hold, adding up to addition_amount
+    if let Ok(m) = &mem {
+        n += 1;
+        let listed: u128 = m.spends.iter().flat_map(|s| s.create_coin.iter().map(|c| c.1 as u128)).sum();
+        let mut a4 = make_allocator(ConsensusFlags::LIMIT_HEAP);
+        let raw_count: Option<usize> = run_spendbundle(&mut a4, b, max, flags, &TEST_CONSTANTS).ok().map(|(c, _)| c.spends.iter().map(|s| s.create_coin.len()).sum());
+        let count: usize = m.spends.iter().map(|s| s.create_coin.len()).sum();
+        if listed != m.addition_amount || raw_count != Some(count) {
+            fails.push((format!("{name}/{tag}/owned-outputs"), format!("the reported conditions list {count} created coins worth {listed}; parsed: {raw_count:?} coins, addition_amount {}", m.addition_amount)));
+        }
     }
     // C02: every reported spend is the coin (parent, tree hash of the REVEALED puzzle, amount) of one coin spend of the bundle
     if let Ok(m) = &mem {
